@@ -152,3 +152,9 @@ func runC14(c *fw.Ctx) {
 		}
 	}
 }
+
+func leakyOf(m float64) (interface {
+	Forward(...tensor.Tensor) (tensor.Tensor, error)
+}, error) {
+	return activations.NewLeakyRelu(&activations.LeakyReluConfig{M: m}), nil
+}
